@@ -114,6 +114,26 @@ Proof. intros. apply add_below_line_rect; assumption. Qed.
 
 #[local] Hint Resolve ar1 ar2 ab1 abl1 unum_rect rect_box_e add_power_rect enclose_abs_rect enclose_sqrt_rect : rect.
 
+Lemma tbl_find_prop : forall {A} (P : A -> bool) code (l : list (N * A)) v,
+  forallb (fun q => P (snd q)) l = true -> tbl_find code l = Some v -> P v = true.
+Proof.
+  induction l as [|[c w] l IHl]; intros v F H; cbn [tbl_find] in H; [discriminate|].
+  cbn [forallb snd] in F. apply andb_prop in F. destruct F as [F1 F2].
+  destruct (c =? code); [inversion H; subst; exact F1 | apply IHl; assumption].
+Qed.
+
+Lemma unicode_name_width : forall code, dwidth (fst (unicode_name code)) = snd (unicode_name code).
+Proof.
+  intro code. unfold unicode_name.
+  destruct (tbl_find code unicode_over) as [[nm len]|] eqn:E.
+  - apply N.eqb_eq.
+    apply (tbl_find_prop (fun w : list N * N => dwidth (fst w) =? snd w) code unicode_over (nm, len));
+      [vm_compute; reflexivity | exact E].
+  - cbn [fst snd]. apply dwidth_ascii. unfold str_name, name_in. cbn [tbl_find].
+    destruct (tbl_find code str_names) as [v|] eqn:E2; [|reflexivity].
+    apply (tbl_find_prop ascii code str_names v); [vm_compute; reflexivity | exact E2].
+Qed.
+
 Section Rec.
   Variable rec : expr -> res sbox.
   Hypothesis IH : forall e b, unicode_guard e = true -> rec e = Ok b -> rect b.
@@ -296,12 +316,17 @@ Section Rec.
       { inv Hi. split; [apply rect_box_s; reflexivity | apply rect_box_e]. }
       destruct (negb (num_is c 1)); [|inv Hi; split; apply rect_box_e].
       destruct (coef_numer_denom c) as [numer denom].
-      rt Hi. destruct p as [[bb1 ff1] nn]. destruct p0 as [[bb2 ff2] dd]. inv Hi.
+      match type of Hi with rthen ?x _ = _ => destruct x as [[[bb1 ff1] nn]| | |] eqn:E1; try discriminate end.
+      cbn [rthen] in Hi.
+      match type of Hi with rthen ?x _ = _ => destruct x as [[[bb2 ff2] dd]| | |] eqn:E2; try discriminate end.
+      cbn [rthen] in Hi. inversion Hi; subst.
       split.
-      - destruct (negb (num_is numer 1)); [rt E; inv E; eapply (uparen_lt_rect (ENum numer)); [apply guard_num | eauto]
-                                          | inv E; apply rect_box_e].
-      - destruct (negb (num_is denom 1)); [rt E0; inv E0; eapply (uparen_lt_rect (ENum denom)); [apply guard_num | eauto]
-                                          | inv E0; apply rect_box_e]. }
+      - destruct (negb (num_is numer 1)).
+        + rt E1. inversion E1; subst. exact (uparen_lt_rect _ _ _ (guard_num numer) E).
+        + inversion E1; subst. apply rect_box_e.
+      - destruct (negb (num_is denom 1)).
+        + rt E2. inversion E2; subst. exact (uparen_lt_rect _ _ _ (guard_num denom) E).
+        + inversion E2; subst. apply rect_box_e. }
     match type of H with
     | rthen ?init _ = _ => destruct init as [[[[[[b1 b2] f1] f2] num0] den0]| | |] eqn:Ei; try discriminate
     end.
@@ -316,7 +341,7 @@ Section Rec.
     destruct den as [|[|den]].
     - oki H. exact Rb1'.
     - oki H. apply abl1; assumption.
-    - rt H. oki H. apply abl1; [exact Rb1' | eapply enclose_parens_rect; eauto].
+    - rt H. oki H. apply abl1; [exact Rb1' | exact (enclose_parens_rect _ _ Rb2 E)].
   Qed.
 
   Lemma u_function_rect : forall code args b,
@@ -324,20 +349,7 @@ Section Rec.
   Proof.
     intros code args b G H. unfold u_function in H.
     assert (Rn : rect (box_w (fst (unicode_name code)) (snd (unicode_name code)))).
-    { apply rect_box_w. unfold unicode_name.
-      destruct (tbl_find code unicode_over) as [[nm len]|] eqn:E.
-      - assert (F : forallb (fun q => dwidth (fst (snd q)) =? snd (snd q)) unicode_over = true) by (vm_compute; reflexivity).
-        clear -E F. induction unicode_over as [|[c w] t IHt]; simpl in *; [discriminate|].
-        apply andb_prop in F. destruct F as [F1 F2].
-        destruct (c =? code); [inversion E; subst; simpl in F1; apply N.eqb_eq in F1; exact F1 | apply IHt; assumption].
-      - simpl. unfold str_name, name_in. simpl.
-        destruct (tbl_find code str_names) as [v|] eqn:E2; [|reflexivity].
-        assert (F : forallb (fun q => ascii (snd q)) str_names = true) by (vm_compute; reflexivity).
-        assert (ascii v = true).
-        { clear -E2 F. induction str_names as [|[c w] t IHt]; simpl in *; [discriminate|].
-          apply andb_prop in F. destruct F as [F1 F2].
-          destruct (c =? code); [inversion E2; subst; exact F1 | apply IHt; assumption]. }
-        rewrite (dwidth_ascii _ H0). reflexivity. }
+    { apply rect_box_w. apply unicode_name_width. }
     destruct (unicode_name code) as [nm len]. rt H. oki H.
     apply ar1; [exact Rn | eapply enclose_parens_rect; [eapply uapp_vec_rect; eauto | eauto]].
   Qed.
@@ -364,17 +376,17 @@ Section Rec.
       eapply u_function_rect; [|exact H]. simpl. unfold unicode_guard. rewrite Gk. reflexivity.
     - (* EF2 *)
       apply andb_prop in Gk. destruct Gk as [G1 G2].
-      destruct (code =? TC_Equality); [eapply (u_bin_rect _ a c); [apply rect_box_s; reflexivity | exact G1 | exact G2 | exact H]|].
-      destruct (code =? TC_Unequality); [eapply (u_bin_rect _ a c); [apply rect_box_w; reflexivity | exact G1 | exact G2 | exact H]|].
-      destruct (code =? TC_LessThan); [eapply (u_bin_rect _ a c); [apply rect_box_w; reflexivity | exact G1 | exact G2 | exact H]|].
-      destruct (code =? TC_StrictLessThan); [eapply (u_bin_rect _ a c); [apply rect_box_w; reflexivity | exact G1 | exact G2 | exact H]|].
+      destruct (code =? TC_Equality); [eapply (u_bin_rect _ a c); [ | exact G1 | exact G2 | exact H]; first [apply rect_box_s; reflexivity | apply rect_box_w; reflexivity]|].
+      destruct (code =? TC_Unequality); [eapply (u_bin_rect _ a c); [ | exact G1 | exact G2 | exact H]; first [apply rect_box_s; reflexivity | apply rect_box_w; reflexivity]|].
+      destruct (code =? TC_LessThan); [eapply (u_bin_rect _ a c); [ | exact G1 | exact G2 | exact H]; first [apply rect_box_s; reflexivity | apply rect_box_w; reflexivity]|].
+      destruct (code =? TC_StrictLessThan); [eapply (u_bin_rect _ a c); [ | exact G1 | exact G2 | exact H]; first [apply rect_box_s; reflexivity | apply rect_box_w; reflexivity]|].
       eapply u_function_rect; [|exact H]. simpl. unfold unicode_guard. rewrite G1, G2. reflexivity.
     - (* EFN *)
-      destruct (code =? TC_And); [eapply u_infix_rect; [apply rect_box_w; reflexivity | exact Gk | exact H]|].
-      destruct (code =? TC_Or); [eapply u_infix_rect; [apply rect_box_w; reflexivity | exact Gk | exact H]|].
-      destruct (code =? TC_Xor); [eapply u_infix_rect; [apply rect_box_w; reflexivity | exact Gk | exact H]|].
-      destruct (code =? TC_Union); [eapply u_infix_rect; [apply rect_box_w; reflexivity | exact Gk | exact H]|].
-      destruct (code =? TC_Intersection); [eapply u_infix_rect; [apply rect_box_w; reflexivity | exact Gk | exact H]|].
+      destruct (code =? TC_And); [eapply u_infix_rect; [ | exact Gk | exact H]; apply rect_box_w; reflexivity|].
+      destruct (code =? TC_Or); [eapply u_infix_rect; [ | exact Gk | exact H]; apply rect_box_w; reflexivity|].
+      destruct (code =? TC_Xor); [eapply u_infix_rect; [ | exact Gk | exact H]; apply rect_box_w; reflexivity|].
+      destruct (code =? TC_Union); [eapply u_infix_rect; [ | exact Gk | exact H]; apply rect_box_w; reflexivity|].
+      destruct (code =? TC_Intersection); [eapply u_infix_rect; [ | exact Gk | exact H]; apply rect_box_w; reflexivity|].
       destruct (code =? TC_FiniteSet).
       { rt H. eapply enclose_curlies_rect; [|exact H].
         eapply (u_join_rect args box_e (box_s s_comma)); [exact Gk | apply rect_box_e | apply rect_box_s; reflexivity | exact E]. }
@@ -382,14 +394,14 @@ Section Rec.
       { destruct args as [|sym [|cond [|? ?]]]; try discriminate.
         simpl in Gk. apply andb_prop in Gk. destruct Gk as [Gs Gc]. apply andb_prop in Gc. destruct Gc as [Gc _].
         rt H. eapply enclose_curlies_rect; [|exact H].
-        eapply (u_bin_rect _ sym cond); [apply rect_box_s; reflexivity | exact Gs | exact Gc | exact E]. }
+        eapply (u_bin_rect _ sym cond); [ | exact Gs | exact Gc | exact E]; first [apply rect_box_s; reflexivity | apply rect_box_w; reflexivity]. }
       destruct (code =? TC_ImageSet).
       { destruct args as [|sym [|ex [|base [|? ?]]]]; try discriminate.
         simpl in Gk. apply andb_prop in Gk. destruct Gk as [Gs Gk]. apply andb_prop in Gk. destruct Gk as [Gx Gk].
         apply andb_prop in Gk. destruct Gk as [Gb _].
         rt H. eapply enclose_curlies_rect; [|exact H].
         apply ar1; [apply ar1; [|apply rect_box_w; reflexivity] | eapply uapp_rect; eauto].
-        eapply (u_bin_rect _ ex sym); [apply rect_box_s; reflexivity | exact Gx | exact Gs | exact E]. }
+        eapply (u_bin_rect _ ex sym); [ | exact Gx | exact Gs | exact E]; first [apply rect_box_s; reflexivity | apply rect_box_w; reflexivity]. }
       eapply u_function_rect; eauto.
     - (* EFunSym *)
       rt H. oki H. apply ar1; [apply rect_box_s; exact Gn|].
@@ -397,9 +409,9 @@ Section Rec.
       eapply (u_join_rect args (box_s []) (box_s s_comma)); [exact Gk | | | exact E]; apply rect_box_s; reflexivity.
     - (* ELex *)
       apply andb_prop in Gk. destruct Gk as [G1 G2].
-      destruct (code =? TC_Contains); [eapply (u_bin_rect _ a c); [apply rect_box_w; reflexivity | exact G1 | exact G2 | exact H]|].
+      destruct (code =? TC_Contains); [eapply (u_bin_rect _ a c); [ | exact G1 | exact G2 | exact H]; first [apply rect_box_s; reflexivity | apply rect_box_w; reflexivity]|].
       destruct (code =? TC_Complement); [|discriminate].
-      eapply (u_bin_rect _ a c); [apply rect_box_s; reflexivity | exact G1 | exact G2 | exact H].
+      eapply (u_bin_rect _ a c); [ | exact G1 | exact G2 | exact H]; first [apply rect_box_s; reflexivity | apply rect_box_w; reflexivity].
     - discriminate.
     - discriminate.
     - (* EPw *)
@@ -418,14 +430,14 @@ Section Rec.
         - simpl in G. apply andb_prop in G. destruct G as [Gxc Gl]. apply andb_prop in Gxc. destruct Gxc as [Gx0 Gc0].
           unfold rthen in Hr at 1. destruct (u_bin rec (box_s s_if) x0 c0) eqn:Eb; try discriminate.
           eapply IHl; [exact Gl | | exact Hr]. apply ab1; [exact Rb|].
-          eapply (u_bin_rect _ x0 c0); [apply rect_box_s; reflexivity | exact Gx0 | exact Gc0 | exact Eb]. }
+          eapply (u_bin_rect _ x0 c0); [ | exact Gx0 | exact Gc0 | exact Eb]; first [apply rect_box_s; reflexivity | apply rect_box_w; reflexivity]. }
       eapply Hp; [exact Gk | apply rect_box_e | exact E].
     - oki H. apply rect_box_s. destruct bv; reflexivity.
     - (* EInterval *)
       apply andb_prop in Gk. destruct Gk as [G1 G2]. rt H.
-      assert (R0 : rect s0) by (eapply (u_bin_rect _ s x); [apply rect_box_s; reflexivity | exact G1 | exact G2 | exact E]).
-      assert (R1 : rect s1) by (destruct lo; [eapply add_left_parens_rect | eapply add_left_sq_rect]; eauto).
-      destruct ro; [eapply add_right_parens_rect | eapply add_right_sq_rect]; eauto.
+      assert (R0 : rect a) by (eapply (u_bin_rect _ s x); [ | exact G1 | exact G2 | exact E]; first [apply rect_box_s; reflexivity | apply rect_box_w; reflexivity]).
+      assert (R1 : rect a0) by (destruct lo; [exact (add_left_parens_rect _ _ R0 E0) | exact (add_left_sq_rect _ _ R0 E0)]).
+      destruct ro; [exact (add_right_parens_rect _ _ R1 H) | exact (add_right_sq_rect _ _ R1 H)].
     - eapply u_atom_rect; eauto.
   Qed.
 End Rec.
@@ -438,3 +450,19 @@ Qed.
 
 Theorem unicode_rect : forall e b, unicode_guard e = true -> unicode_box e = Ok b -> rect b.
 Proof. intros e b G H. eapply ubox_fuel_rect; eauto. Qed.
+
+Lemma rect_b_iff : forall b, rect_b b = true <-> rect b.
+Proof.
+  intro b. unfold rect_b, rect. rewrite forallb_forall, Forall_forall.
+  split; intros H l Hl; specialize (H l Hl); [apply N.eqb_eq | apply N.eqb_eq]; exact H.
+Qed.
+
+(* a Symbol with a non-ASCII name: StringBox(std::string) takes the byte length as width *)
+Definition alpha_over_y : expr :=
+  EMul (NInt 1) [(ESym [121], ENum (NInt (-1))); (ESym [206; 177], ENum (NInt 1))].
+Theorem unicode_rect_refuted :
+  exists b, unicode_box alpha_over_y = Ok b /\ ~ rect b /\ unicode_guard alpha_over_y = false.
+Proof.
+  eexists. split; [vm_compute; reflexivity|]. split; [|reflexivity].
+  intro H. apply rect_b_iff in H. vm_compute in H. discriminate.
+Qed.
